@@ -135,11 +135,31 @@ def failed_props(out):
     return res
 
 
-def trace_inputs(out, function):
-    """Harness-level variable assignments from a --trace (last value per lvalue), as bit strings."""
+UB_FORMATION = ("pointer relation:", "pointer arithmetic:", "arithmetic overflow on pointer")
+
+
+def is_formation_only(desc):
+    """CBMC reports *forming* or *comparing* an out-of-bounds pointer (no access). That is
+    standard-level UB which no sanitizer confirms; it is reported separately (DESIGN 3.4)."""
+    return any(desc.startswith(u) or (u in desc) for u in UB_FORMATION) and "dereference" not in desc
+
+
+def trace_inputs(out, function, prop=None):
+    """Harness-level variable assignments from the --trace of property `prop` (or of the first trace)."""
     vals = {}
     cur_fn = None
+    active = prop is None
+    started = False
     for ln in out.splitlines():
+        m = re.match(r"Trace for (\S+):", ln)
+        if m:
+            if started and prop is None:
+                break
+            active = (prop is None) or (m.group(1) == prop)
+            started = started or active
+            continue
+        if not active:
+            continue
         m = re.match(r"State \d+ file \S+ function (\S+) line", ln)
         if m:
             cur_fn = m.group(1)
@@ -150,8 +170,6 @@ def trace_inputs(out, function):
         if m:
             name = m.group(1).replace("l]", "]")
             vals[name] = int(m.group(2).replace(" ", ""), 2)
-            continue
-        m = re.match(r"\s+([A-Za-z_]\w*)=\{(.*)\}\s*\(([01 ]+(?:, *[01 ]+)*)\)?", ln)
     return vals
 
 
@@ -164,7 +182,8 @@ def native_replay(cfg, srcs, harness, function, vals, defs=(), tag="r"):
                 % (harness, function))
     exe = native_prog(cfg, main_c, srcs, extra=["-I" + HDIR] + ["-D" + d for d in defs], name="replay_%s_%s" % (function, tag))
     args = ["%s=%d" % (k, v) for k, v in vals.items()]
-    rc, so, se, _ = run([exe] + args, timeout=120)
+    env = dict(os.environ, ASAN_OPTIONS="detect_leaks=0:abort_on_error=0", UBSAN_OPTIONS="print_stacktrace=1")
+    rc, so, se, _ = run([exe] + args, timeout=120, env=env)
     txt = (so or "") + (se or "")
     reproduced = (rc != 0 and "ASSUME-FALSE" not in txt)
     return reproduced, txt, [exe] + args
